@@ -403,6 +403,32 @@ def t04_skip(run, fx):
                     run.fail(rule, "skip:apply_subst:%s" % (t["callee"].get("path") or "").split("::")[-1], "a nested substitution is not applied at the position located by find_nth", b.loc(t))
             if n < 7:
                 run.anchor_missing(rule, "seven substitution calls in apply_subst (found %d)" % n)
+            # T04-NEST: the match type a nested substitution receives is the nested lookup's own (from its lookup flag),
+            # never the parent's: the parent's flags only locate the position
+            rule2 = "T04-NEST"
+            run.rule(rule2, "apply_subst: every MatchType handed to a nested substitution (ligature, context, chain context, reverse chain) is "
+                            "MatchType::from_lookup_flag of the nested lookup's own flags; parent_match_type is used only by find_nth to locate the position")
+            m = 0
+            for bi, t in b.calls():
+                if not callee_is(t, *subs):
+                    continue
+                tys = t["callee"].get("sig_args") or []
+                for a in t["args"]:
+                    if a["k"] not in ("copy", "move"):
+                        continue
+                    ty = (a["p"].get("ty") or "")
+                    if not ty.endswith("MatchType"):
+                        continue
+                    m += 1
+                    term = sym.strip(prov.op(a))
+                    nm = (t["callee"].get("path") or "").split("::")[-1]
+                    if term[0] == "call" and (term[4] or term[1] or "").endswith("MatchType::from_lookup_flag"):
+                        run.ok(rule2, "apply_subst -> %s with the nested lookup's own match type" % nm)
+                    else:
+                        run.fail(rule2, "nest:apply_subst:%s" % nm, "apply_subst hands %s the match type %s instead of the nested lookup's own "
+                                 "MatchType::from_lookup_flag(..): glyphs are skipped by the wrong lookup's flags" % (nm, sym.show(term)[:60]), b.loc(t))
+            if m < 4:
+                run.anchor_missing(rule2, "MatchType arguments of nested substitutions in apply_subst (found %d)" % m)
     b = fx.body("gsub::apply_subst_context")
     if b is None:
         return run.anchor_missing(rule, "gsub::apply_subst_context")
